@@ -81,6 +81,14 @@ fn main() {{
         vd_del.pop_front();
     }}
     vd_del.extend(100..110u8);
+    let mut bm_tup: BTreeMap<(u8, i16, u32), u64> = BTreeMap::new();
+    bm_tup.insert((1, 2, 3), 123);
+    bm_tup.insert((1, 7, 4), 174);
+    bm_tup.insert((2, 2, 5), 225);
+    bm_tup.insert((3, -2, 6), 326);
+    let mut hm_tup: HashMap<(u8, u8), u16> = HashMap::new();
+    hm_tup.insert((1, 2), 12);
+    hm_tup.insert((3, 4), 34);
     let mut hm_key: HashMap<Key, String> = HashMap::new();
     hm_key.insert(Key {{ a: 1, b: -1 }}, "one".to_string());
     hm_key.insert(Key {{ a: 2, b: -2 }}, "two".to_string());
@@ -140,7 +148,7 @@ fn main() {{
     println!("DBG tup={{:?}}", tup);
     println!("DBG n={{:?}}", n);
     println!("DBG g={{:?}}", g);
-    println!("{{r}} {{}} {{}} {{}} {{}} {{}} {{}} {{}} {{}} {{}} {{}} {{}} {{}} {{}} {{}} {{}} {{}} {{}} {{}} {{:?}} {{:?}} {{:?}} {{:?}} {{:?}} {{}}", s_ascii, s_utf8, s_empty.len(), v_i32.len(), v_empty.len(), v_cap.len(), vv.len(), v_str.len(), vd.len(), hm.len(), hs.len(), bm.len(), bs.len(), bx.0, rc2, arc, cell.get(), hm_key.len() + hm_del.len() + hs_del.len() + bm_del.len() + vd_del.len(), rcell, opt_s, opt_none, sl, tup, n);
+    println!("{{r}} {{}} {{}} {{}} {{}} {{}} {{}} {{}} {{}} {{}} {{}} {{}} {{}} {{}} {{}} {{}} {{}} {{}} {{}} {{:?}} {{:?}} {{:?}} {{:?}} {{:?}} {{}}", s_ascii, s_utf8, s_empty.len(), v_i32.len(), v_empty.len(), v_cap.len(), vv.len(), v_str.len(), vd.len(), hm.len(), hs.len(), bm.len(), bs.len(), bx.0, rc2, arc, cell.get(), bm_tup.len() + hm_tup.len() + hm_key.len() + hm_del.len() + hs_del.len() + bm_del.len() + vd_del.len(), rcell, opt_s, opt_none, sl, tup, n);
 }}
 "#
     )
@@ -221,6 +229,7 @@ fn expected(n: u64) -> Vec<(&'static str, Value, &'static str)> {
         ("v_str", json!((0..n.min(5)).map(|k| json!({"s": "x".repeat(k as usize)})).collect::<Vec<_>>()), "Vec<alloc::string::String"),
         ("vd", json!(["99", "100", "101", "102", "103", "104", "105"]), "VecDeque<u16"),
         ("hm", map_of((0..n).map(|k| json!([s(k * 7), s(-(k as i64))])).collect()), "HashMap<u64, i64"),
+        ("bm_tup", map_of(vec![json!([[["__0", "1"], ["__1", "2"], ["__2", "3"]], "123"]), json!([[["__0", "1"], ["__1", "7"], ["__2", "4"]], "174"]), json!([[["__0", "2"], ["__1", "2"], ["__2", "5"]], "225"]), json!([[["__0", "3"], ["__1", "-2"], ["__2", "6"]], "326"])]), "BTreeMap<(u8, i16, u32), u64"),
         ("hm_key", map_of(vec![json!([[["a", "1"], ["b", "-1"]], {"s": "one"}]), json!([[["a", "2"], ["b", "-2"]], {"s": "two"}])]), "HashMap<"),
         ("hs", set_of((0..ni).map(|k| s(k * 3 - 5)).collect()), "HashSet<i16"),
         ("hm_del", map_of((0..112u64).filter(|k| k % 3 == 0).map(|k| json!([s(k), s(k * k)])).collect()), "HashMap<u64, u64"),
@@ -264,6 +273,18 @@ fn expected_dqe(n: u64) -> Vec<(String, Option<Value>)> {
         ("hm_key[{a: 2, b: -2}]".into(), Some(json!({"s": "two"}))),
         ("hm_key[{a: 1, b: *}]".into(), Some(json!({"s": "one"}))),
         ("hm_key[{a: 3, b: *}]".into(), None),
+        ("bm_tup[{1, 7, 4}]".into(), Some(s(174))),
+        ("bm_tup[{1, *, 3}]".into(), Some(s(123))),
+        ("bm_tup[{1, *, 4}]".into(), Some(s(174))),
+        ("bm_tup[{*, 7, *}]".into(), Some(s(174))),
+        ("bm_tup[{*, *, 5}]".into(), Some(s(225))),
+        ("bm_tup[{3, -2, *}]".into(), Some(s(326))),
+        ("bm_tup[{1, *, 8}]".into(), None),
+        ("bm_tup[{*, 9, 9}]".into(), None),
+        ("bm_tup[{*, 2, 4}]".into(), None),
+        ("hm_tup[{3, *}]".into(), Some(s(34))),
+        ("hm_tup[{*, 2}]".into(), Some(s(12))),
+        ("hm_tup[{*, 3}]".into(), None),
         ("hs[-5]".into(), Some(json!(true))),
         ("hs[-2]".into(), Some(json!(n > 1))),
         ("hs[-4]".into(), Some(json!(false))),
